@@ -71,7 +71,10 @@ def canon_value(v, kind='plain'):
     if isinstance(v, etree._Element):
         return _c14n(v)
     if hasattr(v, 'sorted_container_properties'):
-        return canon(v)
+        c = canon(v)
+        if all(k.startswith('@') for k in c):
+            return None  # a sub element without any content is equivalent to an absent one
+        return c
     if isinstance(v, dict):
         return {str(k): canon_value(x) for k, x in sorted(v.items(), key=lambda kv: str(kv[0]))}
     return repr(v)
@@ -88,7 +91,8 @@ def canon(obj, with_type=True):
             continue
         if kind == 'ext':
             v = prop.get_actual_value(obj)
-            out[name] = [_c14n(x) for x in (v or [])]
+            if v:
+                out[name] = [_c14n(x) for x in v]
             continue
         try:
             v = getattr(obj, name)
